@@ -63,6 +63,16 @@ func merge(dstDir string, names []string) (string, error) {
 		}
 	}
 
+	// The name of a compound shard is derived from the names of its repositories, so
+	// a compound shard of the same name may already exist: the same repositories
+	// were merged before, re-indexed (which tombstoned them in that shard) and are
+	// merged again now. The rename below replaces that shard, but its .meta sidecar
+	// would stay behind and describe the new shard: every repository in it would be
+	// tombstoned. Remove the stale sidecar first.
+	if err := os.Remove(dstName + ".meta"); err != nil && !os.IsNotExist(err) {
+		return "", fmt.Errorf("zoekt-merge-index: failed to remove stale sidecar of %s: %w", dstName, err)
+	}
+
 	// We only rename the compound shard if all simple shards could be deleted in the
 	// previous step. This guarantees we won't have duplicate indexes.
 	if err := os.Rename(tmpName, dstName); err != nil {
